@@ -129,6 +129,9 @@ def check(run):
     run.check(bool(rs) and bool(polls) and all(any(q.precedes(rn, r, p) and q.paired(rn, r, p) for r in rs) for p in polls), 'R4', 'restart-before-poll', 'sim::simulation::run', rn.loc(),
               'the message queue is not restarted immediately before each poll (a stopped queue polls nothing and the clock runs ahead of ready handlers)', 'm_service.restart() precedes every poll')
 
+    run.clause('R3 only the user stops and restarts a simulation: no library function calls simulation::stop()/restart() (a node-level io_context::stop() that also stopped the simulation, with no matching undo in io_context::restart(), would leave every later run() returning after one round)')
+    engines.r3_caller_table(run, 'sim::simulation::stop', {}, rule='R3', instance='stop-callers')
+    engines.r3_caller_table(run, 'sim::simulation::restart', {}, rule='R3', instance='restart-callers')
     run.clause('R2 stop flag written only by stop/restart/run catch-all')
     engines.r2_writer_table(run, 'sim::simulation::m_stopped', {
         'sim::simulation::stop': 'sets', 'sim::simulation::restart': 'clears', 'sim::simulation::run': 'catch-all sets before rethrow'},
